@@ -172,7 +172,7 @@ func failFast(w *World, r *Report, ro *Roles, rule string) {
 }
 
 func runnerExecute(w *World, r *Report, rule string) {
-	fn := w.FuncByName("taskctl", "(*TaskRunner).execute")
+	fn := w.FuncByRole("taskctl", "(*TaskRunner).execute", func(f *ssa.Function) bool { return recvIs(f, "TaskRunner") && callsNamed(f, "PgidExecutor).Execute") && w.storesField(f, "Task", "Errored") })
 	if fn == nil {
 		r.Undecided(rule, "taskctl.TaskRunner.execute", "-", "not found")
 		return
@@ -231,7 +231,7 @@ func runnerExecute(w *World, r *Report, rule string) {
 }
 
 func apiErrored(w *World, r *Report, rule string) {
-	fn := w.FuncByName("server", "jobToResult")
+	fn := w.FuncByRole("server", "jobToResult", func(f *ssa.Function) bool { return sigHas(f, []string{"PipelineJob"}, []string{"pipelineJobResult"}) })
 	if fn == nil {
 		r.Undecided(rule, "server.jobToResult", "-", "not found")
 		return
